@@ -55,6 +55,10 @@ type Case struct {
 	// types (specializers are type names, arguments are literals)
 	World string `json:"world,omitempty"`
 	Arity int    `json:"arity"`
+	// Via: every call goes through one function, i.e. through one compiled
+	// call site that all routines share (seeded change C10-l1: a memo kept
+	// on the call site object)
+	Via bool `json:"via,omitempty"`
 	// Enum marks a history of the bounded-exhaustive enumeration.
 	Enum  bool   `json:"enum,omitempty"`
 	Tasks [][]Op `json:"tasks"`
@@ -242,6 +246,7 @@ func (e *engine) Generate(seed uint64, idx int, tier string, avoid []harness.Fin
 			c.Arity = 2
 		}
 	}
+	c.Via = r.Pct(30)
 	ntasks := 1
 	if r.Pct(60) {
 		ntasks = 2 + r.Intn(2)
@@ -640,7 +645,31 @@ func step(state string, in Op, out output, wk string) (bool, string, string) {
 
 // ---- execution ----
 
+var (
+	genericOnce sync.Once
+	genericSet  map[string]bool
+)
+
+// genericFiles returns the names of the source files of pkg/generic.
+func genericFiles() map[string]bool {
+	genericOnce.Do(func() {
+		genericSet = map[string]bool{}
+		dir := os.Getenv("REPO_DIR")
+		if dir == "" {
+			dir = "/repo"
+		}
+		ents, _ := os.ReadDir(dir + "/pkg/generic")
+		for _, e := range ents {
+			if strings.HasSuffix(e.Name(), ".go") {
+				genericSet[e.Name()] = true
+			}
+		}
+	})
+	return genericSet
+}
+
 type world struct {
+	via     bool
 	builtin bool
 	lattice bool
 	sfx     string
@@ -733,6 +762,7 @@ func newWorldKind(arity int, wk string) *world {
 	}
 	params := []string{"a", "b", "c"}[:arity]
 	fmt.Fprintf(&b, "(defgeneric %s (%s))\n", w.gf, strings.Join(params, " "))
+	fmt.Fprintf(&b, "(defun via%s (%s) (%s %s))\n", w.sfx, strings.Join(params, " "), w.gf, strings.Join(params, " "))
 	for i := 0; i < n; i++ {
 		v := fmt.Sprintf("i%d%s", i, w.sfx)
 		w.insts = append(w.insts, v)
@@ -814,6 +844,9 @@ func (w *world) source(op Op) (out string) {
 	if op.K == "cam" {
 		return fmt.Sprintf("(compute-applicable-methods '%s (list %s))", w.gf, strings.Join(as, " "))
 	}
+	if w.via {
+		return fmt.Sprintf("(via%s %s)", w.sfx, strings.Join(as, " "))
+	}
 	return fmt.Sprintf("(%s %s)", w.gf, strings.Join(as, " "))
 }
 
@@ -880,6 +913,7 @@ func (e *engine) Execute(raw json.RawMessage) (vd harness.Verdict) {
 	vd.Probes = map[string]int{}
 	builtinOnce.Do(builtinInit)
 	w := newWorld(c.Arity, c.World)
+	w.via = c.Via
 	// compile every operation before the run
 	codes := make([][]slip.Code, len(c.Tasks))
 	for ti, ops := range c.Tasks {
@@ -985,7 +1019,11 @@ func (e *engine) Execute(raw json.RawMessage) (vd harness.Verdict) {
 	// tables belong to C17
 	var auxRaces []string
 	for _, r := range s.MapRaces {
-		if strings.HasPrefix(sched.RaceMap(r), "Aux.") {
+		// "kind file.go:function:Type.field file.go:function:Type.field":
+		// the race belongs to C10 when its write window was opened by the
+		// dispatch code (a file of pkg/generic)
+		f := strings.Fields(r)
+		if strings.HasPrefix(sched.RaceMap(r), "Aux.") || (len(f) >= 2 && genericFiles()[f[1][:strings.IndexByte(f[1]+":", ':')]]) {
 			auxRaces = append(auxRaces, r)
 		}
 	}
